@@ -1,8 +1,10 @@
-from . import streams_geom, streams_interp, cli
+from . import streams_geom, streams_interp, streams_interplocate, cli
 
 ID = 'C11'
-PROPS_MODULE = ['Refine.Props.C11', 'Refine.Props.C11Search']
-STREAMS = [streams_geom.INTERP, streams_geom.BARY, streams_interp.SEARCH, streams_interp.SELF, cli.INTERP, cli.INTERP_MPI]
+PROPS_MODULE = ['Refine.Props.C11', 'Refine.Props.C11Search', 'Refine.Props.C11Locate']
+STREAMS = [streams_geom.INTERP, streams_geom.BARY, streams_interp.SEARCH, streams_interp.SELF, cli.INTERP, cli.INTERP_MPI,
+           streams_interplocate.LOCATE, streams_interplocate.LOCATE_MPI2, streams_interplocate.LOCATE_MPI3,
+           streams_interplocate.CLI_OFFSET, streams_interplocate.CLI_OFFSET_MPI]
 EXPLANATION = (
     'Proved (Lean 4, exact real arithmetic, over the executable model bit-compared with the C): ref_node_clip_bary2/3/4 '
     'return a point of the simplex on the success branch (w_i >= 0, sum 1) and a unit vector on the REF_DIV_ZERO branch; '
@@ -29,13 +31,55 @@ EXPLANATION = (
     'position, recycled cell ids), per-cell sphere bits, tree arrays, candidate lists, in_list cell+weights, ref_interp_tree, '
     'ref_interp_locate on receptors without geometry nodes (tree path only) + ref_interp_scalar of a linear field, single-agent '
     'ref_interp_walk_agent, ref_interp_locate_node: bit comparison; oracle with exact rational weights. Stream interp_self '
-    '(oracle only): ref_interp_locate onto a shrunk copy of the donor, where geometry nodes seed the walk.')
+    '(oracle only): ref_interp_locate onto a shrunk copy of the donor, where geometry nodes seed the walk. '
+    'Staged search on any number of ranks (Props/C11Locate, model Model/InterpLocate = ref_interp_locate as an SPMD function over '
+    'Model/Comm: ref_interp_geom_nodes (allconcat, nearest donor corner, allminwho, best cell AROUND that corner, four blind '
+    'sends, the seed acceptance test), ref_interp_push_onto_queue, ref_interp_process_agents with ref_interp_walk_agent and '
+    'ref_update_agent_tet/tri_seed (hops to the rank owning the next cell, step limit, boundary), the slot discipline of '
+    'ref_agents.c, ref_agents_migrate, the five each_active_ref_agent loops, ref_interp_tree with the allminwho arbitration and '
+    'the fuzz retry loop; ref_interp->bary is one Option per slot, every copy loop has the bound of the C text). The tolerances, '
+    'comparison operators, loop bounds, limits and the migration record layout are regenerated from ref_interp.c / ref_agents.c '
+    'into Gen/InterpConsts.lean on every run and pinned by constants_of_the_c_text. Proved for every np, partition and rand() '
+    'sequence: every vertex located by a geometry seed or a walking agent has all four stored weights >= inside = -1e-12 '
+    '(locate_accepts_only_inside: this is what breaks if the seed test reads `bound`); every located vertex has all four slots '
+    'written by the stage that located it, the 4th is 0 for a 2-D donor (locate_all_slots_written, the logic part of C18 for '
+    'this structure); under ghost consistency of the receptor the stored slots ARE the weights of the vertex own position in the '
+    'stored cell of rank part (locate_stored_weights: through allconcat_spec, blindsend_spec and the migration round trip); end '
+    'to end for tets (locate_linear_exact): exact if the stored cell encloses the vertex, within 4e-12 x spread of the linear '
+    'field over the cell for stage 1/2 (clip_error_bound); ref_agents_migrate delivers every agent unchanged with all four '
+    'weights and succeeds whenever destinations are ranks (agent_migrate_roundtrip/_delivery/_total/_no_alteration); the rank '
+    'that sends a tree cell proposes the largest min weight, lowest rank on ties, and the winning value does not depend on how '
+    'the candidates are split over ranks (arbitration_picks_global_best, _largest_min_weight, _partition_independent). '
+    'Non-vacuity: ref_interp_locate evaluated step by step on a 2-D and a 3-D one-rank world (Lemmas/InterpLocateEx), a '
+    'receptor corner 5 % past the one-ring of the nearest donor corner (rejected by `inside`, accepted by `bound`), a two-rank '
+    'migration. Tie: streams interp_locate (np=1, serial build), interp_locate_mpi2, interp_locate_mpi3 (harness '
+    'h_interplocate.c, white-box ref_interp.c): donor/receptor PAIRS that are not the same domain (nested, offset 0.3..1.3 cells '
+    'with corners inside / on / just outside the one-ring, same domain other resolution, one-id discs and balls, stretched, '
+    'sticking out, > 215-step strips, fuzz retries, > 10 live agents), both grids partitioned by the generator; ref_interp->bary '
+    'pre-filled with NaN; per vertex (cell, part, four slot bit patterns, stage by snapshots between the white-box stage calls), '
+    'all counters, the rand() state; the real ref_interp_locate on a second REF_INTERP must give the same arrays. Oracle on the C '
+    'output: four finite slots, weights = exact barycentric weights of the vertex in the stored cell, min weight >= -1e-12 for '
+    'stage 1/2 and for every vertex inside the donor domain. Oracle streams cli_interp_offset (+ _mpi np=2,3): `ref interpolate` '
+    'on such pairs with ldim=3: two linear fields exact at every receptor vertex inside the donor domain, range everywhere.')
 ASSUMPTIONS = [
     'IEEE rounding is modelled (Float instance, bit-compared), not verified: the theorems hold in exact real arithmetic',
     'not verified: walk completeness (that the neighbour walk reaches the enclosing cell; when it does not, the tree path '
-    'takes over, which is proved complete); the agent queue / seeding order of ref_interp_locate with geometry nodes (exercised '
-    'by the oracle-only stream interp_self and the CLI streams, not modelled); ref_interp_nearest_tet_via_tri_in_tree; the 2-D '
-    'end-to-end statement assumes the query in the donor plane (ref_node_bary3 ignores z, the search sphere does not)',
+    'takes over, which is proved complete); ref_interp_nearest_tet_via_tri_in_tree / ref_interp_locate_nearest, '
+    'ref_interp_locate_warm and _subset (other entry points, not modelled: `ref interpolate` and adapt call ref_interp_locate); the '
+    '2-D end-to-end statement assumes the query in the donor plane (ref_node_bary3 ignores z, the search sphere does not); '
+    'locate_linear_exact is for tetrahedral donors',
+    'staged search model: rand() in ref_update_agent_*_seed (which off-rank face node a walk hops to) is a parameter of the model '
+    '(the harness substitutes its own generator in the white-box copy of ref_interp.c); the while loop of '
+    'ref_interp_process_agents has no bound in the C, the model gives up after 100000 sweeps; an error on one rank is an error of '
+    'the whole model world (the C ranks would wait for each other); a blind send with a destination outside the world or with more '
+    'than INT_MAX/ldim records in total is REF_FAILURE in the model (the C indexes out of bounds / guards per-rank counts); '
+    'previous/next/last of REF_AGENTS (ref_agents_pop) are not modelled; the order each_ref_cell_having_node visits cells and '
+    'ref_grid_node_list_around lists neighbours is derived from the ref_cell_add order of the harness (latest first) and compared '
+    'by the dadj/radj/geomlist ops; locate_stored_weights assumes ghost copies of receptor vertices carry the owner coordinates and '
+    'cell ids different from REF_EMPTY',
+    'history: until /repo 0166523 ref_interp_geom_nodes failed when the receptor had geometry corners and no rank had a donor '
+    'geometry node (findings/interp-geom-nodes-donor-without-corners, fixed); model and C now leave such a corner unseeded, the '
+    'roundbox sessions and corpus/C11/*disc_donor* are the regression inputs',
     'outside the donor domain the tree path stores the candidate with the largest min weight among the cells whose scaled '
     'sphere is within search_fuzz: convexity then comes from the clip (interp_range), nearness is not quantified',
     'not verified here: the blind-send round trip of the parallel evaluation (serial np=1 only in this harness)',
